@@ -52,11 +52,15 @@ func init() {
 					col.Add(*f)
 				}
 				for i := 0; i < n; i++ {
+					var sample []byte
+					if i == 0 {
+						sample, _ = jsonMarshal(map[string]interface{}{"scenario_class": s.Key(), "prescribed_result": s.R, "block": b.Name, "block_bytes": len(b.Bytes), "concrete_faults_of_this_class_on_this_block": n})
+					}
 					key := ""
 					if i < nt {
 						key = s.Key() + "/" + b.Name + "/" + string(rune('0'+i%10)) + string(rune('0'+(i/10)%10)) + string(rune('0'+(i/100)%10)) + string(rune('0'+i/1000))
 					}
-					col.Case(key, 1, nil)
+					col.Case(key, 1, sample)
 				}
 			}
 		}
